@@ -2,7 +2,7 @@ SPECIFICATION DSpec
 CONSTANTS
   N = 4
   RD = 2
-  CAP = 1
+  CAP = 4
   MaxOps = 4
   FaultAt = 0
   KeepStaleOnFail = FALSE
